@@ -25,7 +25,8 @@ RULE = ("histories of 1..6 (thorough: up to 30) operations update_coordinates / 
         "degrees and 180 -+ 4e-6, 10 % of the off-grid cases, with in-plane / identity rotations that keep them there); "
         "INTEGER-TYPED COLUMNS: 15 % of the lists are built the way reading a STAR / CSV file builds them (every column whose values are all whole "
         "numbers is int64) and 9 % hold whole numbers only with chosen column groups (x y z / shifts / angles / the other 11 / all 20) int64, "
-        "met first by every kind of operation; COLUMN ORDER: 30 % of the lists store the 20 columns in another order than Motl.motl_columns (Motl accepts "
+        "met first by every kind of operation; RECEIVER CLASS: 35 % of the lists are held in a subclass (EmMotl / RelionMotl / StopgapMotl / DynamoMotl / "
+        "ModMotl constructed from the motl-format frame) so that every operation and observer is called on that receiver; COLUMN ORDER: 30 % of the lists store the 20 columns in another order than Motl.motl_columns (Motl accepts "
         "any order) -- interleaved x, shift_x, y, shift_y, z, shift_z / z, y, x / reversed / alphabetical / random permutation -- for every operation "
         "(observations are read by column NAME); DataFrame index default / permuted 0..n-1 / offset / sparse-descending / every label twice, "
         "re-imposed by the caller before EVERY operation in 60 % of the cases (shift_positions resets it); dimension tables: one triple (list / "
@@ -43,7 +44,7 @@ RULE = ("histories of 1..6 (thorough: up to 30) operations update_coordinates / 
         "given and as its normal form (python mirror of Lean pushFlips: flips removed, later operations mirrored, one flip appended iff their number "
         "is odd): the final poses must agree (spec, composition-history-flip-parity; the law is Lean's spec_history_flip_parity) and Lean's specRun "
         "of both must agree (corr). Cross-call state: 30 % of the cases re-use one caller-owned argument object (shift vector, Rotation, dimension list / ndarray / "
-        "DataFrame / file path) for two calls, in 40 % of those legitimately rewritten by the caller in between; 15 % run TWO lists in one "
+        "DataFrame / file path) for two calls, in 40 % of those legitimately rewritten by the caller in between (an argument whose content is to stay the same is NOT refreshed by the harness: the next call sees whatever an earlier call left in it); 15 % run TWO lists in one "
         "process with interleaved operations and shared arguments; every argument is compared before/after the call (DataFrame: values "
         "and shape, not the column labels dimensions_load assigns), the list not operated on must stay bit-identical, and with "
         "inplace=False so must the original. After EVERY operation all 20 fields, their dtypes, get_coordinates()/get_angles() (with "
@@ -326,7 +327,8 @@ class _Canon(ast.NodeTransformer):
     def visit_FunctionDef(self, f):
         f.name = self.discards.get(id(f)) or self.names.get(f.name, f.name)
         f.returns = None
-        f.decorator_list = []  # decorators are the framework's binding obligation (harness/decorators.json), not part of the body
+        # decorators of INNER functions (round_and_recenter, shift_coords) stay in the dump: the framework's binding obligation
+        # covers the decorator list of the anchored (looked-up) function only, which `alpha_norm` clears itself
         self.generic_visit(f)
         return f
 
@@ -423,6 +425,7 @@ def alpha_norm(fn):
     keep = fn.name
     fn = _Canon(names, discards).visit(fn)
     fn.name = keep
+    fn.decorator_list = []  # the anchored function's own decorators are the framework's binding obligation (harness/decorators.json)
     ast.fix_missing_locations(fn)
     return fn
 
@@ -466,7 +469,9 @@ def translate(src):
             raise core.AnchorMissing("get_coordinates: expected two branches '<xyz>.values + <shifts>.values'")
         return found[0]
 
-    cs = A("get_coordinates:x+shift", coords) or DOC["coords"]
+    cs = A("get_coordinates:x+shift", coords)
+    if cs is None:  # a MISSING anchor (never a falsy value that was found) falls back to the documented value
+        cs = DOC["coords"]
 
     # --- update_coordinates
     def update():
@@ -502,7 +507,9 @@ def translate(src):
             raise core.AnchorMissing("update_coordinates does not apply round_and_recenter row by row")
         return [rounded, resid]
 
-    up = A("update_coordinates:round_and_recenter", update) or [DOC["rounded"], DOC["resid"]]
+    up = A("update_coordinates:round_and_recenter", update)
+    if up is None:
+        up = [DOC["rounded"], DOC["resid"]]
 
     # --- scale_coordinates
     def scale():
@@ -520,7 +527,9 @@ def translate(src):
             raise core.AnchorMissing("scale_coordinates: loop body is not 'col *= factor; shift_col *= factor': " + " ; ".join(txt)[:160])
         return [coords_, [m.group(2)]]
 
-    sc = A("scale_coordinates:loop", scale) or DOC["scale"]
+    sc = A("scale_coordinates:loop", scale)
+    if sc is None:  # a MISSING anchor (never a falsy value that was found) falls back to the documented value
+        sc = DOC["scale"]
 
     # --- Euler conventions: every from_euler / as_euler call in the anchored functions
     def euler_calls():
@@ -538,7 +547,9 @@ def translate(src):
             raise core.AnchorMissing(f"expected 4 from_euler/as_euler calls, found {len(out)}")
         return out
 
-    eu = A("euler-conventions:from_euler/as_euler", euler_calls) or DOC["euler"]
+    eu = A("euler-conventions:from_euler/as_euler", euler_calls)
+    if eu is None:  # a MISSING anchor (never a falsy value that was found) falls back to the documented value
+        eu = DOC["euler"]
 
     # --- angle column order used to build / store Euler triples
     def angle_cols():
@@ -579,7 +590,9 @@ def translate(src):
             raise core.AnchorMissing("shift_coords: the Euler triple [[phi, theta, psi]] of the row was not found")
         return out
 
-    ac = A("angle-columns:apply_rotation,get_angles,shift_coords", angle_cols) or DOC["angle_cols"]
+    ac = A("angle-columns:apply_rotation,get_angles,shift_coords", angle_cols)
+    if ac is None:  # a MISSING anchor (never a falsy value that was found) falls back to the documented value
+        ac = DOC["angle_cols"]
 
     # --- apply_rotation: which side the user's rotation multiplies on
     def rot_side():
@@ -643,7 +656,9 @@ def translate(src):
             raise core.AnchorMissing(f"shift_positions: expected the row function applied in both branches (inplace / copy), found {calls}")
         return out
 
-    st_ = A("shift_positions:shift+=R.apply(s)", shift_targets) or DOC["shift_targets"]
+    st_ = A("shift_positions:shift+=R.apply(s)", shift_targets)
+    if st_ is None:  # a MISSING anchor (never a falsy value that was found) falls back to the documented value
+        st_ = DOC["shift_targets"]
 
     # --- flip_handedness
     def flip():
@@ -675,7 +690,9 @@ def translate(src):
                     casts += 1
         return [offs[0], 1 if neg_theta else 0, mirrors, negs, casts]
 
-    fl = A("flip_handedness:theta,z_dim,shift_z", flip) or DOC["flip"]
+    fl = A("flip_handedness:theta,z_dim,shift_z", flip)
+    if fl is None:  # a MISSING anchor (never a falsy value that was found) falls back to the documented value
+        fl = DOC["flip"]
 
     # --- signatures: parameter names and default values of every function the adapter calls (G1)
     def signatures():
@@ -694,7 +711,9 @@ def translate(src):
             out += [[q, p, d] for p, d in zip(params, defaults)]
         return out
 
-    sg = A("signatures:parameters-and-defaults", signatures) or DOC["signatures"]
+    sg = A("signatures:parameters-and-defaults", signatures)
+    if sg is None:  # a MISSING anchor (never a falsy value that was found) falls back to the documented value
+        sg = DOC["signatures"]
 
     # --- whole bodies, alpha-normalised (G5): any added / removed / reordered statement is seen, a renamed local is not
     bodies = {}
@@ -993,7 +1012,7 @@ def _gen_op(rng, tomos, grid, kinds, near=False, halfint=False):
             v = [rng.gauss(0, 8) for _ in range(3)]
         # inplace: "omit" = the keyword is left out (library default), True / False = passed explicitly
         return dict(kind="shift", v=[f2b(x) for x in v], inplace=rng.choice(["omit", "omit", True, False, False]),
-                    form=rng.choice(["array", "array", "list", "tuple", "listint" if all(x == int(x) for x in v) else "list"]), kw=rng.random() < 0.3)
+                    form=rng.choice(["array", "array", "list", "tuple"] + (["listint", "tupleint", "arrayint"] if all(x == int(x) for x in v) else ["list"])), kw=rng.random() < 0.3)
     if kind == "rotate":
         return _gen_Q(rng, near and rng.random() < 0.7)
     return _gen_dims(rng, tomos, grid, halfint and rng.random() < 0.6)
@@ -1035,6 +1054,9 @@ def _push_flips(ops):
 
 
 _POSE6 = ("x", "y", "z", "shift_x", "shift_y", "shift_z")
+# the classes a user holds a particle list in: every subclass constructor accepts a frame in motl format (check_df_type) and
+# inherits the six operations and the observers from Motl -- an override in a subclass is reachable only through that receiver
+RECEIVERS = ["EmMotl", "RelionMotl", "StopgapMotl", "DynamoMotl", "ModMotl"]
 
 
 def _col_order(rng):
@@ -1101,6 +1123,8 @@ def generate(rng, tier, n):
                     reindex=rng.random() < 0.6, bytomo=rng.random() < 0.35)
         if intcols:
             case["intcols"] = intcols
+        if rng.random() < 0.35:  # receiver-class stream: the list is held in a subclass of Motl (every operation and observer runs on it)
+            case["cls"] = rng.choice(RECEIVERS)
         if rng.random() < 0.3:  # column-order stream: every operation meets a table whose 20 columns are not in the canonical order
             case["colorder"] = _col_order(rng)
             if two and rng.random() < 0.5:
@@ -1182,6 +1206,8 @@ def shrink(case):
     if len(ops) > 1:
         for i in range(len(ops)):
             yield dict(base, ops=ops[:i] + ops[i + 1:])
+    if case.get("cls"):
+        yield {k: v for k, v in case.items() if k != "cls"}
     if case.get("colorder") or case.get("colorder2"):
         yield {k: v for k, v in case.items() if k not in ("colorder", "colorder2")}
     if case.get("intcols"):
@@ -1227,7 +1253,7 @@ def sample_view(case):
     return dict(rows=[[b2f(b) for b in r] for r in case["rows"]][:3], n_rows=len(case["rows"]), fields=COLS,
                 n_rows2=len(case.get("rows2") or []), ops=[opv(o) for o in case["ops"]][:8], n_ops=len(case["ops"]),
                 twin=case.get("twin", {}).get("clause"), index=case.get("index"), reindex=case.get("reindex"), bytomo=case.get("bytomo"),
-                integer_typed_columns=case.get("intcols"), column_order=(case.get("colorder") or ["motl_columns"])[0],
+                receiver_class=case.get("cls", "Motl"), integer_typed_columns=case.get("intcols"), column_order=(case.get("colorder") or ["motl_columns"])[0],
                 columns=(case.get("colorder") or [None, None])[1])
 
 
@@ -1315,19 +1341,36 @@ def _make_arg(op, idx, shared, td):
     from scipy.spatial.transform import Rotation
     k, key = op["kind"], op.get("share")
     have = shared.get(key) if key else None
+    # what the CALLER last put into the shared object: when the next call wants the very same content the caller does nothing at all
+    # (it does not "refresh" its object), so whatever an earlier call did to the object is what the next call sees
+    wanted = ("shift", op["v"]) if k == "shift" else ("flip", _raw_bits(op)) if k == "flip" else None
+    if have is not None and wanted is not None and shared.get(("content", key)) == wanted and not (k == "flip" and op.get("form") in ("file", "com")):
+        return have
+    if key and wanted is not None:
+        shared[("content", key)] = wanted
     if k == "shift":
         v = [b2f(x) for x in op["v"]]
         form = op.get("form", "array")
         if isinstance(have, tuple) and list(have) == v:
             obj = have
-        elif have is not None and not isinstance(have, tuple):
-            if isinstance(have, np.ndarray):
-                have[:] = v
-            else:
-                have[:] = v
+        elif have is not None and not isinstance(have, tuple) and not (isinstance(have, np.ndarray) and have.dtype.kind in "iu" and any(x != int(x) for x in v)):
+            keep_int = all(x == int(x) for x in v) and ((isinstance(have, np.ndarray) and have.dtype.kind in "iu") or (isinstance(have, list) and have and all(isinstance(x, int) for x in have)))
+            have[:] = [int(x) for x in v] if keep_int else v  # the caller rewrites its own array / list in place
             obj = have
         else:
-            obj = np.array(v) if form == "array" else (list(v) if form == "list" else tuple(v))
+            ints = [int(x) for x in v] if all(x == int(x) for x in v) else None  # "…int" forms: python / numpy INTEGERS, as a user types [0, 0, 3]
+            if form == "array":
+                obj = np.array(v)
+            elif form == "arrayint" and ints is not None:
+                obj = np.array(ints)
+            elif form == "listint" and ints is not None:
+                obj = list(ints)
+            elif form == "tupleint" and ints is not None:
+                obj = tuple(ints)
+            elif form in ("list", "listint"):
+                obj = list(v)
+            else:
+                obj = tuple(v)
     elif k == "rotate":
         obj = have if have is not None else Rotation.from_matrix(np.array([b2f(x) for x in op["q"]]).reshape(3, 3))
     elif k == "flip":
@@ -1431,7 +1474,7 @@ def _index_labels(kind, n):
     return None
 
 
-def _build(rows, index, intcols=None, colorder=None):
+def _build(rows, index, intcols=None, colorder=None, cls=None):
     import pandas as pd
     from cryocat import cryomotl
     data = {c: [b2f(r[j]) for r in rows] for j, c in enumerate(COLS)}
@@ -1448,6 +1491,11 @@ def _build(rows, index, intcols=None, colorder=None):
     lab = _index_labels(index, len(rows))
     if lab is not None:
         df.index = lab
+    if cls in RECEIVERS:
+        m = getattr(cryomotl, cls)(df)  # the subclass constructors copy the frame and reset its row labels (check_df_type) ...
+        if lab is not None:
+            m.df.index = lab            # ... so the caller re-labels its own table afterwards, as `reindex` does before every operation
+        return m
     return cryomotl.Motl(df)
 
 
@@ -1476,7 +1524,7 @@ def _run_history(case, ops, td):
     lists = [case["rows"]] + ([case["rows2"]] if case.get("rows2") else [])
     kinds = [case.get("index", "default"), case.get("index2", "default")]
     tomos = [sorted({b2f(r[TOMO]) for r in rows}) for rows in lists]
-    ms = [_build(rows, kinds[j], case.get("intcols"), case.get("colorder2" if j == 1 and case.get("colorder2") else "colorder")) for j, rows in enumerate(lists)]
+    ms = [_build(rows, kinds[j], case.get("intcols"), case.get("colorder2" if j == 1 and case.get("colorder2") else "colorder"), case.get("cls")) for j, rows in enumerate(lists)]
     bytomo = bool(case.get("bytomo"))
     snap_all = lambda: [_snap(m, tomos[j], bytomo) for j, m in enumerate(ms)]
     shared, steps = {}, []
@@ -1845,7 +1893,7 @@ def judge(case, obs, resps):
         # G2: nothing may have changed since the previous call returned
         for j in range(nl):
             if alive[j] and not _same_state(prev[j], rec["before"][j]):
-                out.append(dict(kind="spec", clause="list-changed-between-operations", detail=f"{tag}: list {j} differs from what the previous call left: {_vals(prev[j].get('cells', []))[:2]} -> {_vals(rec['before'][j].get('cells', []))[:2]}"))
+                out.append(dict(kind="corr", clause="list-changed-between-operations", detail=f"{tag}: list {j} differs from what the previous call left: {_vals(prev[j].get('cells', []))[:2]} -> {_vals(rec['before'][j].get('cells', []))[:2]}"))
         if "dims_loaded" in rec and ("loaddims", i, L) in rmap:
             out += _judge_loaddims(tag, op, rec, rmap[("loaddims", i, L)])
         if k == "flip" and op.get("dims") and "bad" in op["dims"]:
@@ -1873,9 +1921,12 @@ def judge(case, obs, resps):
         prev = list(rec["after"])
         for j in range(nl):  # an operation on one list must leave the other list alone
             if j != L and alive[j] and not _same_state(rec["before"][j], rec["after"][j]):
-                out.append(dict(kind="spec", clause="operation-changed-another-list", detail=f"{tag}: list {j} changed"))
+                out.append(dict(kind="corr", clause="operation-changed-another-list", detail=f"{tag}: list {j} changed"))
         if "arg_changed" in rec:
-            out.append(dict(kind="spec", clause="caller-owned-argument-modified", detail=f"{tag}: the caller's argument object was {_arg_view(rec['arg_changed']['before'])} before the call and {_arg_view(rec['arg_changed']['after'])} after it"))
+            out.append(dict(kind="corr", clause="caller-owned-argument-modified", detail=f"{tag}: the caller's argument object was {_arg_view(rec['arg_changed']['before'])} before the call and {_arg_view(rec['arg_changed']['after'])} after it"))
+        # spec: the docstring of shift_positions demands it ("inplace: whether to return a NEW INSTANCE of the motl with shifted coordinates (False)
+        # or perform the shift on `df` directly (True)": with False the shift is not performed on the receiver's df); the caller's ARGUMENT objects
+        # and the other lists of the process are nowhere mentioned by the statement or the docstrings: those clauses are corr
         if "original_after" in rec and not _same_state(rec["original_after"], B):
             out.append(dict(kind="spec", clause="inplace-false-modified-the-original", detail=f"{tag}: the list the method was called on changed although inplace=False"))
         if "returned" in rec:
@@ -2138,7 +2189,9 @@ def stats(case, obs, resps):
             c = [(_spec_dz(o, f2b(r[TOMO])) is not None) for r in rows]
             cov.append(("duplicate-rows/" if len(set(ts)) < len(ts) else "") + ("all-covered" if all(c) else "some-particle-outside-the-quantifier"))
     out["flip_table_coverage"] = cov
-    out["shift_inplace"] = [str(o.get("inplace", "omit")) + "/" + o.get("form", "array") for o in ops if o["kind"] == "shift"]
+    # the "...int" forms hold python / numpy integers only when the vector is whole (a rewritten shared vector may not be): label what is passed
+    out["shift_inplace"] = [str(o.get("inplace", "omit")) + "/" + (o.get("form", "array") if all(b2f(x) == int(b2f(x)) for x in o["v"]) else o.get("form", "array").replace("int", "")) for o in ops if o["kind"] == "shift"]
+    out["receiver_class"] = case.get("cls", "Motl")
     out["keyword_call"] = [o["kind"] for o in ops if o.get("kw")]
     shares = {}
     for o in ops:
@@ -2228,6 +2281,9 @@ LEVEL_TEXT = ("Lean 4 theorems about an executable, number-type-polymorphic mode
               "code against the model and against the statement (all 20 fields, dtypes, caller-owned arguments, two lists per process)")
 LEVEL_NOTE = ("for Float/Rat services the scipy facts are hypotheses of the theorems: cos even/sin odd (CsOdd) and, for apply_rotation only, that as_euler's triple "
               "reproduces the product matrix (EulerOK, per matrix); both are probed numerically each run and are theorems for the real-number services; float "
-              "round-off is outside the proofs (exact steps are compared bit-exactly / by the exact Lean checker, trigonometric steps within 1e-9)")
+              "round-off is outside the proofs (exact steps are compared bit-exactly / by the exact Lean checker, trigonometric steps within 1e-9); the hypothesis-free real-number theorems (realSvc_meets_all, absPose_runOps_real, history_flip_parity_real) are about the IDEAL services realSvc, whose Euler "
+              "extraction eulerR (sqrt / Complex.arg) is a different function from the extractor the driver executes (Drv/C05.eulerF, Float.atan2) and from scipy's as_euler: they show "
+              "that the contract is satisfiable and what follows from it, not that the executed extractor meets it (that is measured: resid, probes); flip_flip / flip_flip_in_history "
+              "are identities of exact arithmetic ((dz+1)-((dz+1)-z) = z can fail in the last bit at Float): the float restoration is validated within tolerance")
 TECHNIQUE = "Lean 4 proof (ring identities over any commutative ring, Mz conjugation, cofactor identities and Euler-angle existence for SO(3), induction over histories, Rat floor rounding) + regenerated anchors + per-step differential correspondence"
 DESIGN_REF = "DESIGN.md section 4, C05"
